@@ -20,9 +20,8 @@ func propC13(c *Ctx) {
 	// every store of which is Event's signature hash, and the fields every store of which is
 	// numIndexed() + j (an integration may keep them in a small struct of their own: eventID{sighash, ntopics})
 	sigFields, countFields := gateFields(w)
-	if len(sigFields) == 0 || len(countFields) == 0 {
-		fatalf("anchor: no field holds the event's signature hash (%d) / the number of indexed inputs (%d)", len(sigFields), len(countFields))
-	}
+	// no such field: the gate may still compare with the values computed on the spot (Event.SignatureHash(),
+	// numIndexed()); if it does not, the tests below are reported missing
 	fTopics := w.Field("eth", "Log", "Topics")
 
 	c.Rule("R13.1", "decode, topic conversion and row append in processLog are dominated by the topic-count and signature-hash tests", 5)
@@ -38,7 +37,7 @@ func propC13(c *Ctx) {
 	// test are known to have passed; whether the hash test is itself behind the count test
 	type gateInfo struct {
 		countEq, hashEq []Edge
-		hashCall        *ssa.Call
+		hashCall        hashTest
 		before          bool
 	}
 	gatesOf := func(g *ssa.Function) gateInfo {
@@ -83,35 +82,64 @@ func propC13(c *Ctx) {
 			}
 		}
 		// hash test: bytes.Equal(ig.sighash, Topics[0])
-		var hashCall *ssa.Call
+		var hashCall hashTest
+		isSig := func(v ssa.Value) bool {
+			for f := range sigFields {
+				if isFieldValueOrSlice(v, f) {
+					return true
+				}
+			}
+			// the hash computed on the spot
+			if call, ok := stripConv(v).(*ssa.Call); ok {
+				if cal := staticCallee(call); cal != nil && isSigHashFn(w, cal) {
+					return true
+				}
+			}
+			return inlineSigHash(w, v)
+		}
+		isTopic0 := func(v ssa.Value) bool {
+			s, idx, ok := elemOf(v)
+			if !ok {
+				return false
+			}
+			n, okc := constInt(idx)
+			return okc && n == 0 && isTopicsLoad(reg.Resolve(stripConv(s)))
+		}
 		for _, ci := range reg.Calls() {
 			call, isCall := ci.(*ssa.Call)
 			if !isCall || calleeName(call) != "bytes.Equal" {
 				continue
 			}
 			a0, a1 := stripConv(call.Call.Args[0]), stripConv(call.Call.Args[1])
-			isSig := func(v ssa.Value) bool {
-				for f := range sigFields {
-					if isFieldValueOrSlice(v, f) {
-						return true
-					}
-				}
-				return false
-			}
-			isTopic0 := func(v ssa.Value) bool {
-				s, idx, ok := elemOf(v)
-				if !ok {
-					return false
-				}
-				n, okc := constInt(idx)
-				return okc && n == 0 && isTopicsLoad(reg.Resolve(stripConv(s)))
-			}
 			if (isSig(a0) && isTopic0(a1)) || (isSig(a1) && isTopic0(a0)) {
 				hashCall = call
 				t, _ := boolEdges(call)
 				hashG = append(hashG, gate{call.Parent(), t})
 			}
 		}
+		// … or as a comparison of arrays: [32]byte(Topics[0]) == sighash
+		reg.AllInstrs(func(in ssa.Instruction) {
+			b, isB := in.(*ssa.BinOp)
+			if !isB || b.Op != token.EQL {
+				return
+			}
+			if _, isArr := b.X.Type().Underlying().(*types.Array); !isArr {
+				return
+			}
+			asTopic0 := func(v ssa.Value) bool {
+				u, ok := stripConv(v).(*ssa.UnOp)
+				if !ok || u.Op != token.MUL {
+					return false
+				}
+				sp, ok := u.X.(*ssa.SliceToArrayPointer)
+				return ok && isTopic0(stripConv(sp.X))
+			}
+			if (isSig(stripConv(b.X)) && asTopic0(b.Y)) || (isSig(stripConv(b.Y)) && asTopic0(b.X)) {
+				hashCall = b
+				t, _ := boolEdges(b)
+				hashG = append(hashG, gate{b.Parent(), t})
+			}
+		})
 		// lift the gates to g
 		liftGate := func(gs []gate, isTestValue func(ssa.Value) bool) []Edge {
 			var out []Edge
@@ -198,7 +226,7 @@ func propC13(c *Ctx) {
 		c.OK("R13.1", "processLog/hash-test-exists", pl.Pos(), "every caller of processLog compares Topics[0] with the signature hash before calling it (after the count test)")
 	} else {
 		c.Check("R13.1", "processLog/count-test-exists", pl.Pos(), len(countEq) > 0, "len(Topics) is compared with numIndexed + 1")
-		c.Check("R13.1", "processLog/hash-test-exists", pl.Pos(), hashCall != nil && len(hashEq) > 0, "Topics[0] is compared with the signature hash using bytes.Equal")
+		c.Check("R13.1", "processLog/hash-test-exists", pl.Pos(), hashCall != nil && len(hashEq) > 0, "Topics[0] is compared with the signature hash (bytes.Equal, or == on arrays)")
 	}
 	if hashCall != nil && !callerGated {
 		c.Check("R13.1", "processLog/count-before-topic0", hashCall.Pos(), own.before, "Topics[0] is read only after the count test passed (no index panic on an empty topic list)")
@@ -233,6 +261,10 @@ func propC13(c *Ctx) {
 		}{{"sighash", sortedVars(sigFields)}, {"numIndexed", sortedVarsInt(countFields)}} {
 			var bad []string
 			cnt := 0
+			if len(grp.fs) == 0 {
+				c.OK("R13.1", "who-may-write/Integration."+grp.name, pl.Pos(), "no field holds this reference value (it is computed where it is compared)")
+				continue
+			}
 			for _, fn := range w.RepoFuncs() {
 				allInstrs(fn, func(in ssa.Instruction) {
 					st, ok := in.(*ssa.Store)
@@ -783,7 +815,6 @@ func sigHashFn(w *World, f *ssa.Function, d int) bool {
 	if f == nil || f.Blocks == nil || d > 3 || f.Signature.Recv() == nil || !repoNamedIs(f.Signature.Recv().Type(), "dig", "Event") {
 		return false
 	}
-	kec := w.Fn("eth", "Keccak")
 	recv := f.Params[0]
 	isRecv := func(v ssa.Value) bool {
 		v = stripConv(v)
@@ -796,37 +827,7 @@ func sigHashFn(w *World, f *ssa.Function, d int) bool {
 		}
 		return v == ssa.Value(recv)
 	}
-	// keccakArg: v is Keccak(A) (possibly converted to an array, possibly through a wrapper in package eth): returns A
-	var keccakArg func(v ssa.Value, d2 int) ssa.Value
-	keccakArg = func(v ssa.Value, d2 int) ssa.Value {
-		if d2 > 4 {
-			return nil
-		}
-		v = stripConv(v)
-		switch x := v.(type) {
-		case *ssa.UnOp:
-			if x.Op == token.MUL {
-				if sp, ok := x.X.(*ssa.SliceToArrayPointer); ok {
-					return keccakArg(sp.X, d2+1)
-				}
-			}
-		case *ssa.Call:
-			cal := staticCallee(x)
-			if cal == kec {
-				return x.Call.Args[0]
-			}
-			if cal != nil && cal.Pkg == kec.Pkg && cal.Blocks != nil && len(cal.Params) == 1 {
-				// a wrapper: every return is Keccak(its parameter)
-				for _, r := range returnsOf(cal) {
-					if a := keccakArg(returnValues(r)[0], d2+1); a == nil || stripConv(a) != ssa.Value(cal.Params[0]) {
-						return nil
-					}
-				}
-				return x.Call.Args[0]
-			}
-		}
-		return nil
-	}
+	keccakArg := func(v ssa.Value, d2 int) ssa.Value { return keccakArgOf(w, v, d2) }
 	var good func(v ssa.Value, d2 int) bool
 	good = func(v ssa.Value, d2 int) bool {
 		if d2 > 5 {
@@ -955,6 +956,10 @@ func gateFields(w *World) (map[*types.Var]bool, map[*types.Var]int64) {
 					return
 				}
 			}
+			if inlineSigHash(w, v) {
+				o.sig++
+				return
+			}
 			// numIndexed() + j
 			aff := &affEnv{}
 			l := aff.Of(st.Val)
@@ -1009,6 +1014,9 @@ func gateFields(w *World) (map[*types.Var]bool, map[*types.Var]int64) {
 func conformingGateStore(w *World, st *ssa.Store, sig bool, j int64) bool {
 	v := stripConv(st.Val)
 	if sig {
+		if inlineSigHash(w, v) {
+			return true
+		}
 		call, ok := v.(*ssa.Call)
 		if !ok {
 			return false
@@ -1147,4 +1155,60 @@ func delegateResult(f *ssa.Function) (*ssa.Function, int) {
 		return nil, 0
 	}
 	return g, k
+}
+
+// keccakArgOf: v is Keccak(A) (possibly converted to an array, possibly through a wrapper in package eth): returns A
+func keccakArgOf(w *World, v ssa.Value, d2 int) ssa.Value {
+	kec := w.Fn("eth", "Keccak")
+	if d2 > 4 {
+		return nil
+	}
+	v = stripConv(v)
+	switch x := v.(type) {
+	case *ssa.UnOp:
+		if x.Op == token.MUL {
+			if sp, ok := x.X.(*ssa.SliceToArrayPointer); ok {
+				return keccakArgOf(w, sp.X, d2+1)
+			}
+		}
+	case *ssa.Call:
+		cal := staticCallee(x)
+		if cal == kec {
+			return x.Call.Args[0]
+		}
+		if cal != nil && cal.Pkg == kec.Pkg && cal.Blocks != nil && len(cal.Params) == 1 {
+			// a wrapper: every return is Keccak(its parameter)
+			for _, r := range returnsOf(cal) {
+				if a := keccakArgOf(w, returnValues(r)[0], d2+1); a == nil || stripConv(a) != ssa.Value(cal.Params[0]) {
+					return nil
+				}
+			}
+			return x.Call.Args[0]
+		}
+	}
+	return nil
+}
+
+// inlineSigHash: v is Keccak([]byte(E.Signature())) for an Event value E, written out where it is stored
+// (newLogMatcher(ev) { return logMatcher{sighash: eth.Keccak32([]byte(ev.Signature())), …} })
+func inlineSigHash(w *World, v ssa.Value) bool {
+	a := keccakArgOf(w, v, 0)
+	if a == nil {
+		return false
+	}
+	conv, ok := a.(*ssa.Convert)
+	if !ok {
+		return false
+	}
+	sc, ok := conv.X.(*ssa.Call)
+	if !ok {
+		return false
+	}
+	return staticCallee(sc) == w.Fn("dig", "Event.Signature")
+}
+
+// hashTest: the instruction that compares Topics[0] with the signature hash: a call of bytes.Equal or an == of arrays
+type hashTest interface {
+	ssa.Instruction
+	ssa.Value
 }
